@@ -480,7 +480,8 @@ def quoted_scenarios(rnd, n):
     need their quotes (outer blanks, a comment character inside), next to plain ones in varying order; then group-less keys are set
     (they are written first, so every later entry is emitted at another position than it is stored at); write, read back, dump."""
     hs = []
-    pool = ['a="  two words  "', 'b="x # y"', "c=plain", 'd=" lead"', 'e="trail "', "f=p q", 'g="#"', "h="]
+    pool = ['a="  two words  "', 'b="x # y"', "c=plain", 'd=" lead"', 'e="trail "', "f=p q", 'g="#"', "h=",
+            'i="p # q" # behind a quoted text that holds the character itself', 'j="#" #c']
     for i in range(n):
         m = Mixed(rnd, 900 + i, ops={"read", "set", "write"})
         m.script.append("mkdir %s" % hx(m.R + "/out"))
